@@ -340,7 +340,7 @@ pub fn run(tier: &str, only: Option<&Value>) -> i32 {
                     let text = &b.files["m.rs"];
                     // S: placeholders
                     let fi = synx::file_info(text).ok();
-                    let placeholders = fi.as_ref().and_then(|f| f.struct_("TVftable")).map(|s| s.fields.iter().filter(|f| f.name.starts_with("_vfunc_")).count() as u64);
+                    let placeholders = fi.as_ref().and_then(|f| f.struct_("TVftable")).map(|s| s.fields.iter().filter(|f| !(f.name.starts_with('v') && f.name[1..].parse::<usize>().is_ok_and(|i| i < c.idx.len()))).count() as u64);
                     if placeholders != Some(len - sl.len() as u64) {
                         fail("placeholder_count".into(), format!("expected {} placeholder slots, emitted {:?}\n{text}", len - sl.len() as u64, placeholders), &mut rep);
                         continue;
